@@ -98,6 +98,20 @@ def evalMatch (r : Rec) (env : Env) (t : Expr) (arms : List Arm) : Res SVal :=
       | none => stuck
     | _ => stuck)
 
+def pickSArm : List SArm → String → Option Body
+  | [], _ => none
+  | .mk (some p) b :: rest, s => if p == s then some b else pickSArm rest s
+  | .mk none b :: _, _ => some b
+
+def evalMatchS (r : Rec) (env : Env) (t : Expr) (arms : List SArm) : Res SVal :=
+  Res.bind (r.expr env t) (fun vt =>
+    match vt with
+    | .fo (.lit (.str s)) =>
+      match pickSArm arms s with
+      | some b => r.body env b
+      | none => stuck
+    | _ => stuck)
+
 def stepExpr (r : Rec) (P : Prog) (env : Env) : Expr → Res SVal
   | .lit l => Res.pure (.fo (.lit l))
   | .var x => ofOpt (lookup env x)
@@ -141,6 +155,7 @@ def stepExpr (r : Rec) (P : Prog) (env : Env) : Expr → Res SVal
       | "fold", [v0, .fo (.slice xs)] => foldApp r.app SVal.fo vf v0 xs
       | _, _ => stuck))
   | .matchE t arms => evalMatch r env t arms
+  | .matchSE t arms => evalMatchS r env t arms
 
 def runStmts (r : Rec) : Env → List Stmt → Res Env
   | env, [] => Res.pure env
@@ -163,7 +178,8 @@ def stepBody (r : Rec) (env : Env) : Body → Res SVal
     Res.bind (runStmts r env ss) (fun env' =>
       match tail with
       | .ret e => r.expr env' e
-      | .matchT t arms => evalMatch r env' t arms)
+      | .matchT t arms => evalMatch r env' t arms
+      | .matchST t arms => evalMatchS r env' t arms)
 
 def stepApp (r : Rec) (P : Prog) : SVal → List SVal → Res SVal
   | .clo ps b cenv, args => if ps.length = args.length then r.body ((ps.zip args).reverse ++ cenv) b else stuck
